@@ -4,6 +4,7 @@ usage: tools/seed_confirm.py /root/seed_stage [Cxx ...]"""
 import json, os, shutil, subprocess, sys, glob
 stage = sys.argv[1]
 only = set(sys.argv[2:])
+TAG = os.environ.get("SEED_TAG", "")          # e.g. SEED_TAG=r2 -> ids C01-r2-1
 VERIF = os.path.dirname(os.path.dirname(os.path.abspath(__file__)))
 WT = "/tmp/seed_wt"
 def sh(cmd, **kw):
@@ -18,7 +19,7 @@ try:
         k = os.path.basename(d)
         if only and pid not in only:
             continue
-        sid = "%s-%s" % (pid, k)
+        sid = "%s-%s%s" % (pid, (TAG + "-") if TAG else "", k)
         patch, demo = os.path.join(d, "patch.diff"), os.path.join(d, "demo.py")
         if not (os.path.exists(patch) and os.path.exists(demo)):
             print(sid, "incomplete"); continue
